@@ -494,6 +494,13 @@ def check_case(ctx, W, case, pending):
     if res['error'] is None:
         if res.get('commit_hook_error'):
             ctx.count('commit-ended-by-hook-error')
+        elif res.get('commit_error') and case['action'] == 'entity_flush' and res['commit_error'].startswith(('OptimisticCheckError', 'TransactionIntegrityError')):
+            # obj.flush() writes ONE object out of queue order (e.g. the DELETE of a G before the UPDATE that moves its former item away):
+            # the database's own ON DELETE CASCADE then conflicts with the rest of the queue at commit.  Statement order and cascades are
+            # the subject of C15/C16, not of the hook property: the case ends here (counted, reported in the evidence notes).
+            ctx.count('entity_flush:commit-ended-by-database-conflict')
+            if not any('out of queue order' in n for n in ctx.notes):
+                ctx.note('obj.flush() out of queue order followed by commit() hit a database conflict (%s) for history %s' % (res['commit_error'][:80], json.dumps(brief(case))[:300]))
         elif res.get('commit_error'):
             ctx.violation('commit after the flush failed', inp, observed=res['commit_error'], expected='commit', key='commit-error')
         else:
